@@ -104,6 +104,9 @@ fn main() {
                 let name = std::path::Path::new(&args[2]).file_name().and_then(|s| s.to_str()).unwrap_or("").to_string();
                 let id = name.split('-').next().unwrap_or("").to_string();
                 let res = match id.as_str() {
+                    "C02" => props::c02::fuzz_bytes(&data),
+                    "C09" => props::c09::fuzz_bytes(&data),
+                    "C11" => props::c11::fuzz_bytes(&data),
                     "C05" => props::c05::fuzz_bytes(&data),
                     "C08" => props::c08::fuzz_bytes(&data),
                     "C17" => props::c17::fuzz_bytes(&data),
